@@ -69,16 +69,16 @@ class DjangoSessionCookieSecureOff(SimpleCodemod):
         Handle case for `SESSION_COOKIE_SECURE = not True` in settings.py
         """
         pos_to_match = self.node_position(original_node)
-        if is_session_cookie_secure(
-            original_node
-        ) and self.filter_by_path_includes_or_excludes(pos_to_match):
+        if is_session_cookie_secure(original_node):
             if is_assigned_to_True(original_node):
+                # what the file already says does not depend on which lines may be edited
                 self.flag_correctly_set = True
                 return updated_node
 
-            # SESSION_COOKIE_SECURE = anything other than True
-            self.add_change(original_node, self.change_description)
-            return updated_node.with_changes(value=cst.Name("True"))
+            if self.filter_by_path_includes_or_excludes(pos_to_match):
+                # SESSION_COOKIE_SECURE = anything other than True
+                self.add_change(original_node, self.change_description)
+                return updated_node.with_changes(value=cst.Name("True"))
         return updated_node
 
 
